@@ -1,6 +1,43 @@
-(* Properties_C03.v — see MsgProofs.v; extended as proofs land *)
+(* Properties_C03.v — C03: decoding honours the wire blockLength.
+   In Msg.enc_message every level carries its own block of ARBITRARY length
+   (the wire blockLength), independent of the compiled one, so the navigation
+   theorems below are statements about every schema extension. *)
 From Coq Require Import ZArith List.
-From Sbepp Require Import Bytes BytesFacts.
-Theorem C03_codec_round_trip : forall be w x, dec be (enc be w x) = (x mod 256 ^ Z.of_nat w)%Z.
-Proof. exact dec_enc. Qed.
-Print Assumptions C03_codec_round_trip.
+From Sbepp Require Import CInt Bytes BytesFacts Msg Layout Wire MsgSpec LayoutProofs MsgProofs.
+Import ListNotations.
+Local Open Scope Z_scope.
+
+(* walking a level with the library's pointer arithmetic (level start + wire
+   blockLength, entries at wire blockLength stride, nested entries chained)
+   ends exactly at the end of its image, wherever the image sits *)
+Theorem C03_level_end : stmt_level_end_enc.
+Proof. exact level_end_enc. Qed.
+Print Assumptions C03_level_end.
+
+Theorem C03_groups_end : stmt_groups_end_enc.
+Proof. exact groups_end_enc. Qed.
+Print Assumptions C03_groups_end.
+
+(* the iteration bound used by the library model is always sufficient *)
+Theorem C03_default_fuel_suffices : stmt_default_fuel_suffices.
+Proof. exact default_fuel_suffices. Qed.
+Print Assumptions C03_default_fuel_suffices.
+
+Theorem C03_size_bytes_reports_wire_size : stmt_msg_size_bytes_enc.
+Proof. exact msg_size_bytes_enc. Qed.
+Print Assumptions C03_size_bytes_reports_wire_size.
+
+(* compiled fields are found at their offsets inside the (longer) wire block *)
+Theorem C03_fields_found_in_extended_block : stmt_get_root_field_enc.
+Proof. exact get_root_field_enc. Qed.
+Print Assumptions C03_fields_found_in_extended_block.
+
+(* groups/data after an extended block are found where the wire image puts
+   them, with the wire blockLength and count *)
+Theorem C03_groups_found_after_extended_block : stmt_locate_root_group_enc.
+Proof. exact locate_root_group_enc. Qed.
+Print Assumptions C03_groups_found_after_extended_block.
+
+Theorem C03_data_found_after_extended_block : stmt_get_root_data_enc.
+Proof. exact get_root_data_enc. Qed.
+Print Assumptions C03_data_found_after_extended_block.
